@@ -14,8 +14,11 @@ C07 line-protocol driver (fields separated by one space; byte strings hex, `-` =
                       strictly sorted bytewise
         [pre enc]     optional: three bits (precompressed gzip, br, zstd configured) and the list
                       encode.AcceptedEncodings returns for the request (`.` | hex,hex,…)
+        [query]       optional, after pre enc: r.URL.RawQuery (hex; no space, `#`, control or non-ASCII
+                      byte, and no `t`: the browse parameters limit/offset are not modelled)
         → <outcome> | <names handed to the FS: hex,… or .>
-          outcome = notfound | passthru | forbidden | error | unavailable | redirect
+          outcome = notfound | passthru | forbidden | error | unavailable
+                  | redirect [<hex Location>]   (Location only when <orig> starts with `/`)
                   | file <hexpath> <id> | listing <hexpath> <hexname,… or .>
                   | sidecar <hexpath> <id> <hexenc>
   pair <fault> <serve fields A> // <serve fields B>
@@ -129,7 +132,8 @@ def showOutcome : Outcome → String
   | .forbidden => "forbidden"
   | .serverError => "error"
   | .unavailable => "unavailable"
-  | .redirect => "redirect"
+  | .redirect none => "redirect"
+  | .redirect (some l) => "redirect " ++ Hex.encode l
   | .file p id => "file " ++ Hex.encode p ++ " " ++ toString id
   | .listing p ns => "listing " ++ Hex.encode p ++ " " ++ showList ns
   | .sidecar p id enc => "sidecar " ++ Hex.encode p ++ " " ++ toString id ++ " " ++ Hex.encode enc
@@ -148,9 +152,10 @@ def showGlob : Option Bool → String
   | some true => "true"
   | some false => "false"
 
-def handleServe (cwd root hide index flags path orig tree pre enc : String) : String :=
-  match parseList enc, pre.toList.mapM parseBit with
-  | some accepted, some [pg, pb, pz] =>
+def handleServe (cwd root hide index flags path orig tree pre enc : String) (query : String := "-") : String :=
+  match parseList enc, pre.toList.mapM parseBit, Hex.decode query with
+  | some accepted, some [pg, pb, pz], some query =>
+    if query.any (fun c => isCTL c || c = 35 || c = 32 || c ≥ 128 || c = 116) then "bad-op" else
     (match Hex.decode cwd, Hex.decode root, parseList hide, parseList index, flags.toList.mapM parseBit,
           Hex.decode path, Hex.decode orig, parseTree tree with
     | some cwd, some root, some hide, some index, some (b :: pt :: cn :: ph), some path, some orig, some tree =>
@@ -160,16 +165,18 @@ def handleServe (cwd root hide index flags path orig tree pre enc : String) : St
       if !isRooted cwd || pathClean cwd ≠ cwd || !validTree tree then "bad-op"
       else
         let r := serve (treeFS cwd tree)
-          ⟨cwd, root, hide, index, b, pt, cn, precompressors pg pb pz, accepted⟩ path orig
+          ⟨cwd, root, hide, index, b, pt, cn, precompressors pg pb pz, accepted, query⟩ path orig
         showOutcome r.1 ++ " | " ++ showList r.2
     | _, _, _, _, _, _, _, _ => "bad-op")
-  | _, _ => "bad-op"
+  | _, _, _ => "bad-op"
 
 def handleServeFields : List String → String
   | [cwd, root, hide, index, flags, path, orig, tree] =>
     handleServe cwd root hide index flags path orig tree "000" "."
   | [cwd, root, hide, index, flags, path, orig, tree, pre, enc] =>
     handleServe cwd root hide index flags path orig tree pre enc
+  | [cwd, root, hide, index, flags, path, orig, tree, pre, enc, query] =>
+    handleServe cwd root hide index flags path orig tree pre enc query
   | _ => "bad-op"
 
 /-- `t` (failing template) or `w<k>` (client takes k bytes), k in canonical decimal -/
@@ -204,6 +211,8 @@ def handle : List String → String
     handleServe cwd root hide index flags path orig tree "000" "."
   | ["serve", cwd, root, hide, index, flags, path, orig, tree, pre, enc] =>
     handleServe cwd root hide index flags path orig tree pre enc
+  | ["serve", cwd, root, hide, index, flags, path, orig, tree, pre, enc, query] =>
+    handleServe cwd root hide index flags path orig tree pre enc query
   | "pair" :: fault :: rest =>
     -- a faulted browse request A, then request B on another instance; by
     -- `Props.browse_history_independent` the answer is B's own answer
